@@ -35,6 +35,7 @@ type FuncContract struct {
 	NoPanicProps []string
 	NoPanicKinds map[string][]string // `nopanic[Cxx] typeassert nil ...`: only these kinds of implicit obligation are claimed (under Cxx)
 	Loops        map[int][]*Clause
+	AltLoops     map[int][]*Clause // `loop N altinvariant`: a second, complete invariant set for loop N, tried when the first does not prove the function
 	Acquires     []*Clause
 	Releases     []*Clause
 	Asserts      map[string][]*Clause // anchor -> clauses (e.g. "call:sent.Remove")
@@ -75,6 +76,7 @@ type PkgContracts struct {
 	Globals  []*Clause
 	Initials []*Clause // `initial[Cxx] X.f == c`: like `global`, but checked against the package-level initialiser
 	Guarded  []*GuardDecl
+	CondLocked []*GuardDecl // `condlocked[Cxx] T.f`: Signal/Broadcast on the condition variable T.f only with its L held
 	LockInvs []*LockInv
 	Closed   map[string]bool
 	Defines  map[string]*Define
@@ -370,7 +372,7 @@ func ParseContracts(dir, pkgPath string) (*PkgContracts, error) {
 		case "loop":
 			// loop N invariant <expr>
 			f := strings.Fields(rest)
-			if len(f) < 3 || !strings.HasPrefix(f[1], "invariant") {
+			if len(f) < 3 || !(strings.HasPrefix(f[1], "invariant") || strings.HasPrefix(f[1], "altinvariant")) {
 				return nil, fmt.Errorf("%s:%d: bad loop clause", file, l.no)
 			}
 			n, err := strconv.Atoi(f[0])
@@ -388,6 +390,13 @@ func ParseContracts(dir, pkgPath string) (*PkgContracts, error) {
 			}
 			if len(c.Props) == 0 {
 				c.Props = cur.Props
+			}
+			if strings.HasPrefix(f[1], "altinvariant") {
+				if cur.AltLoops == nil {
+					cur.AltLoops = map[int][]*Clause{}
+				}
+				cur.AltLoops[n] = append(cur.AltLoops[n], c)
+				break
 			}
 			cur.Loops[n] = append(cur.Loops[n], c)
 		case "cancelof":
@@ -646,6 +655,23 @@ func ParseContracts(dir, pkgPath string) (*PkgContracts, error) {
 				}
 			}
 			pc.Guarded = append(pc.Guarded, g)
+			cur = nil
+		case "condlocked":
+			// condlocked T.f   -- the waiters of this condition variable poll something its lock does not
+			// order (a context, a timer): a wake-up sent without c.L can fall between the poll and Wait
+			// `except F G`: wake-ups in F, G (and their closures) are not sent on behalf of anything the
+			// waiters poll (redundant nudges): they may stay bare
+			head := strings.TrimSpace(rest)
+			var except []string
+			if i := strings.Index(head, " except "); i >= 0 {
+				except = strings.Fields(head[i+len(" except "):])
+				head = strings.TrimSpace(head[:i])
+			}
+			dot := strings.Index(head, ".")
+			if dot < 0 {
+				return nil, fmt.Errorf("%s:%d: condlocked wants Type.field", file, l.no)
+			}
+			pc.CondLocked = append(pc.CondLocked, &GuardDecl{Type: head[:dot], Mutex: head[dot+1:], Props: parseProps(props), Line: l.no, Fields: except})
 			cur = nil
 		case "lockinv":
 			i := strings.Index(rest, ":")
